@@ -462,10 +462,7 @@ namespace occa {
     memory mem(modeDevice->malloc(bytes, src, memProps));
     mem.setDtype(dtype);
 
-    modeDevice->bytesAllocated += bytes;
-    modeDevice->maxBytesAllocated = std::max(
-      modeDevice->maxBytesAllocated, modeDevice->bytesAllocated
-    );
+    modeDevice->addBytesAllocated(bytes);
 
     return mem;
   }
